@@ -138,7 +138,7 @@ def rule_after_loop(repo: Repo) -> List[Ob]:
     for f in repo.functions:
         if not f.relpath.startswith("cli/"):
             continue
-        ifs = [x for x in walk_no_nested(f.node) if isinstance(x, ast.If) and "after_loop" in src(x.test) and "or" not in src(x.test)]
+        ifs = [x for x in walk_no_nested(f.node) if isinstance(x, (ast.If, ast.IfExp)) and "after_loop" in src(x.test) and "or" not in src(x.test)]
         if not ifs:
             continue
         n += 1
@@ -165,6 +165,10 @@ def rule_after_loop(repo: Repo) -> List[Ob]:
                 for fact, truth in conjuncts(t.ast, bool(reach)):
                     if isinstance(fact, (ast.Attribute, ast.Name)) and "after_loop" in src(fact):
                         after = truth
+            from ..shape import ifexp_facts
+            for fact, truth in ifexp_facts(call):        # A(...) if args.after_loop else B(...)
+                if isinstance(fact, (ast.Attribute, ast.Name)) and "after_loop" in src(fact):
+                    after = truth
             if kind in ("cond", "limit"):
                 if after is True:
                     seen[kind] += 1
@@ -703,7 +707,12 @@ def rule_vocabulary(repo: Repo) -> List[Ob]:
             return set(), None
 
         for n in walk_no_nested(f.node):
-            if isinstance(n, ast.Compare) and "func" in src(n.left) and isinstance(n.ops[0], ast.Eq):
+            if isinstance(n, ast.Compare) and len(n.ops) == 1 and isinstance(n.ops[0], ast.Eq):
+                # self.func == 'Sin'  /  'Sin' == self.func
+                for a_, b_ in ((n.left, n.comparators[0]), (n.comparators[0], n.left)):
+                    if "func" in src(a_) and const_str(b_):
+                        handled.add(const_str(b_))
+            elif isinstance(n, ast.Compare) and "func" in src(n.left) and isinstance(n.ops[0], ast.Eq):
                 for cmp in n.comparators:
                     if const_str(cmp):
                         handled.add(const_str(cmp))
